@@ -318,8 +318,8 @@ func (r *c36Run) collectBG() error {
 		case th := <-r.w.reg.bgArrivals:
 			th.Last = vregEvent{Blocked: "aremove"}
 			r.bg = append(r.bg, th)
-		case <-time.After(10 * time.Second):
-			return errors.New("death-watch RemoveActor did not arrive within 10s")
+		case <-time.After(40 * time.Second):
+			return errors.New("death-watch RemoveActor did not arrive within 40s")
 		}
 	}
 }
@@ -495,10 +495,10 @@ func c36RunScript(t testing.TB, w *c36World, sc c36Script, idx int) c36Trace {
 	// drain: finish every call (each Members answers "local"), run every pending removal, stop the instances
 	for _, c := range run.calls {
 		for k := 0; k < 30 && !c.th.Last.Finished; k++ {
-			if c.th.Last.Blocked == "members" {
-				c.th.Answer = c.cur()
-			}
-			if _, err := c.th.advance(true); err != nil {
+			// a call waiting for a Members() answer is ended by failing that call: answering "local" could make it join
+			// the single flight of a call that is drained later, which never returns to the driver
+			ok := c.th.Last.Blocked != "members"
+			if _, err := c.th.advance(ok); err != nil {
 				break
 			}
 		}
